@@ -120,7 +120,7 @@ def run(tier, seed, which="C09"):
 
     def tlc(job):
         name, tp, rc, err = job
-        return job, kv.run_tlc("ParamsTrace", "ParamsTrace.cfg", wd, trace=tp, cont=True, timeout=900, name=name)
+        return job, kv.run_tlc("ParamsTrace", "ParamsTrace.cfg", wd, trace=tp, timeout=900, name=name)
 
     for (name, tp, rc, err), res in kv.pmap(tlc, jobs, workers=8):
         V.add_tlc(res)
